@@ -17,7 +17,7 @@ import (
 
 func init() {
 	sw.SetWriteConflict(sumdb.ErrWriteConflict)
-	pbt.Describe("world = tile height H in {1,2,3,4,8}, a log of N records (go.sum line groups for generated module@version incl. upper-case paths, /go.mod lines and the pair go.sum@database whose prefix matches a line of the tree note), a real Ed25519 server key held only by the harness, the server's head at size S<=N, the client's stored head in {empty, signed head of size s0<=S}, cache prefill in {empty, authentic half, everything}. history = 1-5 lookups (existing, missing, repeated, with and without /go.mod) with optional client restarts sharing config and cache. fault plan = 0-3 faults, each bound to a resource the fault-free run requested (lookup response, tile, cached lookup file, cached tile, stored head) and its n-th occurrence: bit flip, truncation, extension, empty, garbage, I/O error, swap with another authentic resource of the same kind (other record, neighbouring/parent/child tile, same tile other width), stale replay (older genuine head with the record, or a genuine head that does not contain it), dropped signature, duplicated line, forged record with its leaf hash placed in an otherwise genuine level-0 tile, forged chain of recomputed parent tiles up to a generated level. Oracle (ground truth, not the code): a successful lookup returns only lines of the genuine record for that module@version, and exactly those lines when every byte delivered for it was authentic; every lookup file written to the cache carries the genuine record text of its id and a head that opens under the key to a genuine (size, hash); every tile file written is byte-identical to the reference tile of its coordinates; every stored head is validly signed, genuine and not smaller than the one it replaces; no security error is raised in a world with a single log; the fault-free run succeeds everywhere. enum = bounded exhaustive single-fault enumeration over every record x every response of the fault-free run x a fixed fault menu. Non-trivial: a fault was delivered and the delivered bytes differ from the authentic ones; or (fault-free) a history that needed >=3 tiles. Distinct by JSON rendering.",
+	pbt.Describe("world = tile height H in {1,2,3,4,8}, a log of N records (go.sum line groups for generated module@version incl. upper-case paths, /go.mod lines and the pair go.sum@database whose prefix matches a line of the tree note), a real Ed25519 server key held only by the harness, the server's head at size S<=N, the client's stored head in {empty, signed head of size s0<=S}, cache prefill in {empty, authentic half, everything}. history = 1-5 lookups (existing, missing, repeated, with and without /go.mod) with optional client restarts sharing config and cache. fault plan = 0-3 faults, each bound to a resource the fault-free run requested (lookup response, tile, cached lookup file, cached tile, stored head) and its n-th occurrence: bit flip, truncation, extension, empty, garbage, I/O error, swap with another authentic resource of the same kind (other record, neighbouring/parent/child tile, same tile other width), stale replay (older genuine head with the record, or a genuine head that does not contain it), dropped signature, duplicated line, forged record with its leaf hash placed in an otherwise genuine level-0 tile, forged chain of recomputed parent tiles up to a generated level. Oracle (ground truth, not the code): a successful lookup returns only lines of the genuine record for that module@version, and exactly those lines when every byte delivered for it was authentic; every lookup file written to the cache carries the genuine record text of its id and a head that opens under the key to a genuine (size, hash); every tile file written is byte-identical to the reference tile of its coordinates; every stored head is validly signed, genuine and not smaller than the one it replaces; no security error is raised in a world with a single log; the fault-free run succeeds everywhere. enum = bounded exhaustive single-fault enumeration over every record x every response of the fault-free run x a fixed fault menu. Non-trivial: a fault was delivered and the delivered bytes differ from the authentic ones; or (fault-free) a history that needed >=3 tiles. Distinct by JSON rendering. honest-concurrent: one log, nothing corrupted; 1-2 clients sharing configuration and cache, 2-3 goroutines each; the record responses of the lookups in flight carry heads of different sizes; every external operation and yield point released by the harness-owned scheduler from generated decisions (the schedule is stored in the case); every lookup must succeed with exactly the record's lines and the write audit must hold. Non-trivial: >=2 distinct head sizes in flight.",
 		"Ed25519 and SHA-256 are sound; the adversary never has the key (forged heads are not generated)", "faults are bound to resources by name and occurrence so that plans do not depend on goroutine scheduling",
 		"a lookup that succeeds with no lines (the server answered with another genuine record) returns nothing unauthenticated and is accepted")
 }
@@ -362,6 +362,7 @@ func classOf(name string) string {
 var subs = []pbt.Sub{
 	pbt.New("faults", 3000, 8000, genCase, check),
 	pbt.New("large", 150, 1500, genLarge, check),
+	pbt.New("honest-concurrent", 250, 2500, genConc, checkConc),
 }
 
 func TestGen(t *testing.T)    { pbt.RunAll(t, subs) }
